@@ -31,6 +31,13 @@ CHECKS = {
             "1..4 and 50, three schemes) run on two real authorities; TLC replays the trace, compares verdicts at every step (Pass A), the uncached verdict with the "
             "Cert model, and the real LRU list with the model's after every operation (Pass B).",
             "Signature objects are replayed with entry boundaries intact.", "DESIGN.md section 6, C11"),
+    "C14": ("model_checking",
+            "TLA+ EventQueue/EventLoop modules: ring buffer refines the ideal FIFO (TLC, exhaustive); TLC state-machine replay of push/pop and register/add/defer/tick sequences run on the real queue and EventLoop; concurrent producers under -race validated by TLC",
+            "TLC proves the ring-buffer model refines a bounded FIFO with exact drop reporting for capacities 1..4. Every push/pop sequence to a depth (and random ones) on "
+            "the real queue, and seeded sequences of register/unregister/AddEvent/DelayUntil/Tick (priority and run-in-AddEvent handlers, handlers that defer during "
+            "dispatch, overflow) on a real EventLoop are replayed by TLC against the property-level rules (Pass A) and the code-order model (Pass B). Concurrent "
+            "producers against the running loop (race detector on) are checked for loss, duplication and real-time order.",
+            "Handlers do not register/unregister from inside a dispatch in the drivers; a Go race report in core/eventloop counts as a violation.", "DESIGN.md section 6, C14"),
     "C19": ("model_checking",
             "TLA+ IDSet module (byte-level Bitfield model vs ideal set) exhausted by TLC; TLC trace validation of operation sequences run on the real Bitfield and real Sign/Combine",
             "TLC exhausts the byte-level model against the ideal set for all insertion orders over boundary ids; operation sequences (exhaustive to a depth over "
